@@ -1005,10 +1005,12 @@ func (y *ifFeatureEval) end() bool {
 
 func (y *ifFeatureEval) eatws() {
 	for !y.end() {
-		if y.expr[y.pos] != ' ' {
-			break
+		switch y.expr[y.pos] {
+		case ' ', '\t', '\n', '\r':
+			y.pos++
+			continue
 		}
-		y.pos++
+		break
 	}
 }
 
@@ -1017,7 +1019,7 @@ func (y *ifFeatureEval) next() string {
 	start := y.pos
 	for !y.end() {
 		switch y.expr[y.pos] {
-		case ' ':
+		case ' ', '\t', '\n', '\r':
 			goto brk
 		case '(', ')':
 			if y.pos == start {
